@@ -290,4 +290,17 @@ def r7_selected_mapping_is_applied(ctx: Ctx) -> None:
     mapping_applied(ctx)
 
 
-RULES = [r1_no_truncation, r2_bias_equals_length, r3_both_ends_checked, r4_run_address_bookkeeping, r5_bank_classification, r6_layout_agreement, r7_selected_mapping_is_applied, rb_binding_agreement, rm_no_process_lifetime_results, ru_names_bound]
+def r8_target_value(ctx: Ctx) -> None:
+    """the displacement is target - (branch address + 2) only when the target expression has its conventional value and its labels resolve to the definitions in scope: operator precedence and associativity (C06.R1/R2), scope replay at emit time and the lookup chain (C08.R2/R3)"""
+    from .c06 import r1_precedence_order as _c06_r1_precedence_order
+    from .c06 import r2_associativity as _c06_r2_associativity
+    from .c08 import r2_replay_agreement as _c08_r2_replay_agreement
+    from .c08 import r3_lookup_chain as _c08_r3_lookup_chain
+
+    _c06_r1_precedence_order(ctx)
+    _c06_r2_associativity(ctx)
+    _c08_r2_replay_agreement(ctx)
+    _c08_r3_lookup_chain(ctx)
+
+
+RULES = [r1_no_truncation, r2_bias_equals_length, r3_both_ends_checked, r4_run_address_bookkeeping, r5_bank_classification, r6_layout_agreement, r7_selected_mapping_is_applied, r8_target_value, rb_binding_agreement, rm_no_process_lifetime_results, ru_names_bound]
